@@ -99,7 +99,7 @@ BidiCfg ==
 \* trigger without negative note (its rest position 0 is the unassigned side)
 AKeyCfg ==
   [BaseCfg EXCEPT
-     !.actions = Restrict(StateActs, {"KEY_F1", "KEY_F2", "KEY_F5", "KEY_F6"}),
+     !.actions = Restrict(StateActs, {"KEY_F1", "KEY_F2", "KEY_F5", "KEY_F6"}) @@ [KEY_F9 |-> "cc_learning"],
      !.maps = << [name |-> "M1", keys |-> <<>>,
                   axes |-> [ABS_HAT0X |-> [AxisDflt EXCEPT !.type = "key", !.note = 60, !.noteNeg = 62, !.offNeg = 3,
                                                            !.bidi = TRUE, !.dzn = 0],
@@ -114,7 +114,7 @@ AKeyCfg ==
 \* offsets and - in the second - no note on the negative side: an emulated key held through a mapping switch
 AKeyMapCfg ==
   [BaseCfg EXCEPT
-     !.actions = Restrict(StateActs, {"KEY_F2", "KEY_F11", "KEY_F12"}),
+     !.actions = Restrict(StateActs, {"KEY_F2", "KEY_F11", "KEY_F12"}) @@ [KEY_F9 |-> "cc_learning"],
      !.maps = << [name |-> "M1", keys |-> <<>>,
                   axes |-> [ABS_HAT0X |-> [AxisDflt EXCEPT !.type = "key", !.note = 60, !.noteNeg = 62, !.offNeg = 3,
                                                            !.bidi = TRUE, !.dzn = 0],
